@@ -734,7 +734,10 @@ func (c1 float64Const) representedBy(typ reflect.Type) (constant, error) {
 		}
 		return nil, fmt.Errorf("constant %s truncated to integer", c1)
 	case reflect.Uint, reflect.Uint8, reflect.Uint16, reflect.Uint32, reflect.Uint64, reflect.Uintptr:
-		if 0 <= f && f <= 1<<64-1025 && float64(int64(f)) == f {
+		if 0 <= f && f <= 1<<64-1025 && float64(uint64(f)) == f {
+			if n := uint64(f); n > maxInt64 {
+				return newIntConst(0).setUint64(n).representedBy(typ)
+			}
 			return int64Const(f).representedBy(typ)
 		}
 		return nil, fmt.Errorf("constant %s truncated to integer", c1)
